@@ -59,7 +59,7 @@ class DeepReuse(_Base):
 
     def gen(self, d, tier):
         prof = dict(reuse=0.95, weights=dict(deep=85, message=10, delete=3, bind=2))
-        specs = histgen.history(d, nconn=d.int(1, 2), nmsg=d.int(60, 90), profile=prof)
+        specs = histgen.history(d, nconn=1 if d.chance(0.7) else 2, nmsg=d.int(64, 90), profile=prof)
         return dict(dialect=d.choice(['new', 'old']), specs=specs)
 
 
